@@ -2,6 +2,7 @@ package main
 
 import (
 	"fmt"
+	"regexp"
 	"go/ast"
 	"go/constant"
 	"go/types"
@@ -46,6 +47,7 @@ type specEnv struct {
 	quant   int
 	loopEntry *State
 	atFresh map[string]sval
+	inEval  bool
 }
 
 type specErr string
@@ -100,6 +102,22 @@ func (fr *Frame) specEnvFor(st *State) *specEnv {
 }
 
 func (env *specEnv) evalBool(e Expr) Term {
+	if env.quant == 0 && env.letDepth == 0 && !env.inEval {
+		env.inEval = true
+		defer func() {
+			env.inEval = false
+			if r := recover(); r != nil {
+				if se, ok := r.(specErr); ok {
+					s := e.String()
+					if len(s) > 90 {
+						s = s[:90] + "..."
+					}
+					panic(specErr(string(se) + "  [while evaluating: " + s + "]"))
+				}
+				panic(r)
+			}
+		}()
+	}
 	v := env.eval(e)
 	t := env.rv(v)
 	if env.eng.vc.sortOf(v.typ) != "Bool" {
@@ -228,6 +246,9 @@ func aliasMatches(alias, path string) bool {
 	}
 	if strings.HasSuffix(alias, "utils") && len(alias) > 5 {
 		return path == modPath+"/pkg/utils/"+strings.TrimSuffix(alias, "utils")
+	}
+	if strings.HasSuffix(alias, "util") && len(alias) > 4 {
+		return path == modPath+"/pkg/utils/"+strings.TrimSuffix(alias, "util")
 	}
 	return false
 }
@@ -849,10 +870,14 @@ func shortPat(n string) string {
 	return b.String()
 }
 
+var utilAliasRe = regexp.MustCompile(`\b([a-z]+?)utils?\.`)
+
 func patMatches(pat, name string) bool {
 	if pat == name {
 		return true
 	}
+	// import aliases like nodeutils / podutil name the packages pkg/utils/node, pkg/utils/pod
+	pat = utilAliasRe.ReplaceAllString(pat, "$1.")
 	s := shortPat(name)
 	if s == pat || strings.HasSuffix(s, "."+pat) || strings.HasSuffix(s, pat) && strings.HasPrefix(pat, "(") {
 		return true
